@@ -60,10 +60,11 @@ def report(R, cases, viol):
 
 def run(R):
     R.trusted += ["hand-written model Model/Pools.v of multistaking Delegate/Undelegate/claims/SlashStakingPool/IncreasePoolRewards/auto-compound/RegisterDelegator and distributor AllocateTokens/BeginBlocker/EndBlocker, validated step by step by the differential run",
-                  "translator harness/cmd/gen_c10 (go/ast): reads which variant the tree implements at six sites (ClaimUndelegation owner comparison, EndBlocker vote deletion, BeginBlocker votes for signers only, Undelegate share-denom prefix / share conversion / burn path); other shapes are rejected",
+                  "translator harness/cmd/gen_c10 (go/ast): reads which variant the tree implements at nine sites (ClaimUndelegation owner comparison, EndBlocker vote deletion, BeginBlocker votes for signers only, Undelegate share-denom prefix / share conversion / burn path, slashing keeper wiring in app.go, SlashStakingPool empty-burn guard, auto-compounding panic vs cache-and-continue); other shapes are rejected",
                   "sdk.Dec arithmetic of Base/Dec.v (Mul / RoundInt, banker's rounding); bank module as a ledger of balances and supply",
                   "no axioms: every theorem of Properties/C10.v is closed under the global context"]
-    R.assume += ["one pool (validator with pool), one validator without pool, unknown proposers; the pool validator stays active; fewer delegators than MaxDelegators (no push-out)",
+    R.assume += ["address rotation (x/recovery): MsgRotateRecoveryAddress of a delegator is modelled; of the pool validator's account it is modelled up to the renaming of that account (the observation's account id follows the rotation); MsgRotateValidatorByHalfRRTokenHolder is outside the model (its observation is judged by the spec checker only, the history ends there)",
+                 "one pool (validator with pool), one validator without pool, unknown proposers; the pool validator stays active; fewer delegators than MaxDelegators (no push-out)",
                  "amounts below 2^63 (no 256/315-bit overflow panics); slash fractions in [0,1]; commission in [0,1]",
                  "the minted inflation and InflationPossible are inputs of the allocation model (observed from the real run); the inflation formula itself belongs to C13",
                  "a failing message / block leaves no trace (baseapp cache discarded): the harness runs every step in a CacheContext"]
@@ -74,7 +75,7 @@ def run(R):
         with open(os.path.join(vlib.COQ, "Gen", "C10Cfg.v"), "w") as f:
             f.write("(* FALLBACK written by checks/c10.py: gen_c10 rejected the tree *)\n"
                     "From Sekai Require Import Base.Prelude Model.Pools.\n"
-                    "Definition tree_variant : variant := mkVariant true 1 false false 0 false.\n")
+                    "Definition tree_variant : variant := last_known_variant.\n")
     R.coq_files(FILES)
     R.coq_property()
     R.audit()
